@@ -27,7 +27,7 @@ import (
 	"verif/harness/xt"
 )
 
-const c05Rule = "rapid: SP metadata (AuthnRequestsSigned absent/false/0/true/1 x zero or one RSA certificate) x IdP WantAuthRequestsSigned {'', false, true, 1} x an original AuthnRequest validly signed by the simulated SP (POST: enveloped XML-DSig; Redirect: query-string signature; rsa-sha1 / rsa-sha256) or unsigned, then 0..2 mutations from a catalogue: field edits after signing, signature stripping, emptied / bit-flipped SignatureValue, DigestValue and query Signature, algorithm substitution, signing with an unregistered key (with its own, the registered or no KeyInfo certificate), Issuer switched to another SP, signature wrapping (signed original moved into Extensions or ds:Object under a forged document element that carries the copied Signature; same-ID variant), RelayState changed / dropped / added after signing, message re-encoded after signing, duplicate SAMLRequest parameters, parameters split between query and body, moving a message or its signature to the other binding, embedded bogus ds:Signature, bogus Signature form parameter, arbitrary bytes in Signature / SigAlg. Non-trivial: a mutated or cross-binding case derived from a valid signature under a configuration that requires signing. Distinct by (mutation set, binding, flags)."
+const c05Rule = "rapid: SP metadata (AuthnRequestsSigned absent/false/0/true/1 x zero or one RSA certificate) x IdP WantAuthRequestsSigned {'', false, true, 1} x an original AuthnRequest validly signed by the simulated SP (POST: enveloped XML-DSig; Redirect: query-string signature; rsa-sha1 / rsa-sha256) or unsigned, then 0..2 mutations from a catalogue: field edits after signing, signature stripping, emptied / bit-flipped SignatureValue, DigestValue and query Signature, algorithm substitution, signing with an unregistered key (with its own, the registered or no KeyInfo certificate), Issuer switched to another SP, signature wrapping (signed original moved into Extensions or ds:Object under a forged document element that carries the copied Signature; same-ID variant), RelayState changed / dropped / added after signing, message re-encoded after signing, duplicate SAMLRequest parameters, parameters split between query and body, moving a message or its signature to the other binding, embedded bogus ds:Signature, bogus Signature form parameter, arbitrary bytes in Signature / SigAlg. One case in five addresses the second clause alone: nobody requires signing, the original is signed, exactly one signature-affecting mutation (nine SigAlg substitutions incl. unimplemented and re-spelled URIs). Non-trivial: a mutated or cross-binding case derived from a valid signature (under a configuration that requires signing it exercises the first clause, otherwise the second). Distinct by (mutation set, binding, flags)."
 
 type C05Case struct {
 	Spec    world.Spec     `json:"spec"`
@@ -66,6 +66,8 @@ var c05RedirectMutations = []Defect{
 	{Name: "change-relaystate"}, {Name: "drop-relaystate"}, {Name: "add-relaystate"},
 	{Name: "strip-signature"}, {Name: "strip-sig-and-alg"}, {Name: "empty-signature"}, {Name: "flip-signature"}, {Name: "junk-signature", Param: "QUJDRA=="}, {Name: "junk-signature", Param: "%%%"},
 	{Name: "sigalg-subst", Param: world.AlgRSASHA1}, {Name: "sigalg-subst", Param: world.AlgRSASHA256}, {Name: "sigalg-subst", Param: "urn:example:none"}, {Name: "sigalg-subst", Param: "http://www.w3.org/2000/09/xmldsig#dsa-sha1"},
+	{Name: "sigalg-subst", Param: "http://www.w3.org/2001/04/xmldsig-more#rsa-sha512"}, {Name: "sigalg-subst", Param: "http://www.w3.org/2001/04/xmldsig-more#ecdsa-sha256"}, {Name: "sigalg-subst", Param: "rsa-sha256"},
+	{Name: "sigalg-subst", Param: "HTTP://WWW.W3.ORG/2001/04/XMLDSIG-MORE#RSA-SHA256"}, {Name: "sigalg-subst", Param: world.AlgRSASHA256 + " "},
 	{Name: "rogue-key"}, {Name: "edit-issuer-other-sp"},
 	{Name: "dup-samlrequest-forged-first"}, {Name: "dup-samlrequest-forged-last"}, {Name: "forged-in-body"}, {Name: "signature-in-body"},
 	{Name: "as-post"}, {Name: "embedded-bad-dsig"}, {Name: "reencode-message"},
@@ -73,13 +75,21 @@ var c05RedirectMutations = []Defect{
 
 func genC05Case(t *rapid.T) C05Case {
 	spec := genSSOWorld(t, worldOpts{minACS: 1, maxACS: 2, signingFlags: true, maxSPs: 3})
+	// one case in five looks at the second clause only ("whatever the configuration, a non-empty signature value that does not
+	// verify is never accepted"): nobody requires signing, the original is signed, one signature-affecting mutation
+	clauseB := rapid.IntRange(0, 4).Draw(t, "clause-b") == 0
+	if clauseB {
+		spec.IdP.WantAuthRequestsSigned = rapid.SampledFrom([]string{"", "false", "0"}).Draw(t, "want-b")
+	}
 	// bias towards configurations that require signing
-	if rapid.Bool().Draw(t, "forcewant") {
+	if !clauseB && rapid.Bool().Draw(t, "forcewant") {
 		spec.IdP.WantAuthRequestsSigned = rapid.SampledFrom([]string{"true", "1"}).Draw(t, "want")
 	}
 	c := C05Case{Spec: spec, Host: defHost}
 	c.SP = rapid.IntRange(0, len(spec.SPs)-1).Draw(t, "sp")
-	if rapid.Bool().Draw(t, "forcesp") {
+	if clauseB {
+		spec.SPs[c.SP].AuthnRequestsSigned = rapid.SampledFrom([]string{A, "false", "0"}).Draw(t, "spflag-b")
+	} else if rapid.Bool().Draw(t, "forcesp") {
 		spec.SPs[c.SP].AuthnRequestsSigned = rapid.SampledFrom([]string{"true", "1"}).Draw(t, "spflag")
 	}
 	// the rogue key may well be a certificate the provider registered - for encryption: that gives it no say in signatures
@@ -98,7 +108,7 @@ func genC05Case(t *rapid.T) C05Case {
 		c.Relay = A
 	}
 	c.KeyInfo = true
-	if len(spec.SPs[c.SP].KeyNames) > 0 && rapid.IntRange(0, 5).Draw(t, "unsigned") != 0 {
+	if len(spec.SPs[c.SP].KeyNames) > 0 && (clauseB || rapid.IntRange(0, 5).Draw(t, "unsigned") != 0) {
 		c.Alg = rapid.SampledFrom([]string{world.AlgRSASHA1, world.AlgRSASHA256}).Draw(t, "alg")
 		c.KeyName = spec.SPs[c.SP].KeyNames[0]
 		c.KeyInfo = rapid.IntRange(0, 3).Draw(t, "keyinfo") != 0
@@ -128,6 +138,19 @@ func genC05Case(t *rapid.T) C05Case {
 	cat := c05PostMutations
 	if c.Binding == "redirect" {
 		cat = c05RedirectMutations
+	}
+	if clauseB {
+		n = 1
+		var sub []Defect
+		for _, m := range cat {
+			switch m.Name {
+			case "sigalg-subst", "flip-signature", "junk-signature", "change-relaystate", "drop-relaystate", "add-relaystate", "edit-message", "edit-attr", "rogue-key", "rogue-key-registered-cert", "rogue-key-no-keyinfo", "flip-sigvalue", "flip-digest", "digestalg-subst", "reencode-message", "add-child-after-signing", "edit-issuer-other-sp":
+				sub = append(sub, m)
+			}
+		}
+		if len(sub) > 0 {
+			cat = sub
+		}
 	}
 	for i := 0; i < n; i++ {
 		c.Mut = append(c.Mut, pick(t, "mutation", cat))
@@ -755,7 +778,7 @@ func TestC05(t *testing.T) {
 	searchRapid(t, col, genC05Case, func(c C05Case) []*ev.Violation {
 		o := c05Run(c)
 		signedOrig := c.Alg != ""
-		nontrivial := signedOrig && len(c.Mut) > 0 && o.required
+		nontrivial := signedOrig && len(c.Mut) > 0 // under a requirement: first clause; without one: the second (a signature that no longer verifies)
 		classes := []string{"binding/" + c.Binding, fmt.Sprintf("required=%v", o.required), fmt.Sprintf("accepted=%v", o.accepted), fmt.Sprintf("sp-signs=%v", signedOrig),
 			"idpflag/" + c.Spec.IdP.WantAuthRequestsSigned, "spflag/" + flagOf(c.Spec, c.SP)}
 		for _, m := range c.Mut {
